@@ -93,13 +93,24 @@ func c17Run(cfgIdx int, hist []int) *mc.SeqOut {
 			}
 			l, had := m.latest(k)
 			wantLive := had && !l.deleted
+			// what is left of the key in the store: only records a client could still observe count - the
+			// index record, or a newest remaining version that is a value (versions below a remaining
+			// tombstone are garbage for the next compaction and change nothing a client can see)
 			nrec := 0
-			for _, r := range recs {
-				// a leftover tombstone version is garbage for the next compaction and changes nothing
-				// a client can observe: only the index record and value versions count
-				if !r.Raw && r.Key == k && (r.Rev == 0 || string(r.Val) != "tombstone") {
-					nrec++
+			var newest *hx.Rec
+			for i := range recs {
+				r := &recs[i]
+				if r.Raw || r.Key != k {
+					continue
 				}
+				if r.Rev == 0 {
+					nrec++
+				} else if newest == nil || r.Rev > newest.Rev {
+					newest = r
+				}
+			}
+			if newest != nil && string(newest.Val) != "tombstone" {
+				nrec++
 			}
 			age := time.Duration(nowNs() - lastChange[k])
 			switch {
